@@ -146,6 +146,11 @@ def parse_item_block(lines, start, file, path):
                 raise WeaveError("bad anchor at line %d" % (i + 1))
             pending_insert = (where, mm.group(1).replace("\\n", "\n"), [])
             spec.inserts.append(pending_insert)
+        elif b.startswith("cut["):
+            mm = re.match(r"cut\[([^\]]+)\]\s*<<<(.*?)>>>\s*\.\.\s*<<<(.*?)>>>\s*=>\s*<<<(.*)>>>$", b, re.S)
+            if not mm:
+                raise WeaveError("bad cut at line %d: %s" % (i + 1, b))
+            spec.replaces.append((mm.group(1), (mm.group(2), mm.group(3)), mm.group(4), "cut"))
         elif b.startswith("replace"):
             mm = re.match(r"replace(-all|\?)?\[([^\]]+)\]\s*<<<(.*?)>>>\s*=>\s*<<<(.*)>>>$", b, re.S)
             if not mm:
@@ -497,6 +502,8 @@ class Woven:
         self.probes = []
         self.assumes = []
         self.expects = []
+        self.flags = {}
+        self.inline_buf = []
 
     def add(self, text):
         for ln in text.split("\n"):
@@ -625,7 +632,7 @@ def weave_fn(w, spec, text, fn_label, item_index, twin):
         edits.append((body_open + 1, "\n" + "\n".join(spec.body_hint) + "\n"))
     # --- string literal distinctness hints (proof only, no assumption): reveal every literal
     # that occurs in the body or the contract at the start of the body
-    if FLAGS.get("strlit"):
+    if w.flags.get("strlit"):
         lits = list(spec.extra_lits)
         for mm in re.finditer(r'(?<![A-Za-z0-9_])"((?:[^"\\\n]|\\.)*)"', text[body_open:] + "\n" + "\n".join(c.text for _, cl in sections for c in cl)):
             if mm.group(0) not in lits:
@@ -652,17 +659,15 @@ def weave_fn(w, spec, text, fn_label, item_index, twin):
     return hl
 
 
-_inline_buf = []
-FLAGS = {}
 
 
 def _add_inline(w, s):
-    _inline_buf.append(s)
+    w.inline_buf.append(s)
 
 
 def _flush_inline(w):
-    s = "".join(_inline_buf)
-    del _inline_buf[:]
+    s = "".join(w.inline_buf)
+    del w.inline_buf[:]
     if s == "":
         return
     if s.endswith("\n"):
@@ -675,7 +680,7 @@ def expand(unit_path, twin=False, repo=None):
     w = Woven()
     lines = open(unit_path).read().split("\n")
     flags = {"f32": False, "fmt": False, "strlit": False, "inspect_err": False, "strmatch": False}
-    FLAGS.clear()
+    w.flags = flags
     src_cache = {}
     i = 0
     while i < len(lines):
@@ -722,7 +727,6 @@ def expand(unit_path, twin=False, repo=None):
                     flags[f[1:]] = False
                 else:
                     flags[f] = True
-            FLAGS.update(flags)
             i += 1
         elif d.startswith("expect "):
             # //@expect FILE :: path <<<body text>>>: the function's body must be exactly this text
@@ -771,6 +775,19 @@ def expand(unit_path, twin=False, repo=None):
             text = raw
             applied = []
             for rule, old, new, all_ in spec.replaces:
+                if all_ == "cut":
+                    a_, b_ = old[0].replace("\\n", "\n"), old[1].replace("\\n", "\n")
+                    if text.count(a_) != 1:
+                        raise WeaveError("%s :: %s: cut[%s] start %r matched %d times" % (file, " :: ".join(path), rule, old[0], text.count(a_)))
+                    p0 = text.index(a_)
+                    p1 = text.find(b_, p0 + len(a_))
+                    if p1 < 0:
+                        raise WeaveError("%s :: %s: cut[%s] end %r not found" % (file, " :: ".join(path), rule, old[1]))
+                    removed = text[p0:p1 + len(b_)]
+                    text = text[:p0] + new.replace("\\n", "\n") + text[p1 + len(b_):]
+                    applied.append({"rule": rule, "old": old[0] + " .. " + old[1], "new": new, "count": 1,
+                                    "removed_sha256": hashlib.sha256(removed.encode()).hexdigest(), "removed_lines": removed.count("\n") + 1})
+                    continue
                 old_ = old.replace("\\n", "\n")
                 new_ = new.replace("\\n", "\n")
                 cnt = text.count(old_)
